@@ -143,6 +143,72 @@ pub fn golden() -> Vec<Case> {
     ]
 }
 
+/// The same relation through `monorail target render`.
+pub fn check_cli(case: &Case, w: usize) -> CheckResult {
+    let cfg = &case.config;
+    let mut env = crate::bb::Env::new(w);
+    env.install_config(cfg);
+    let adj = model::dep_adj(cfg);
+    let all: Vec<usize> = (0..cfg.targets.len()).collect();
+    let cyclic = model::has_cycle_reachable(&adj, &all);
+    let o = env.mr(&["target", "render", "-f", "graph.dot"]);
+    if !o.ok() {
+        if cyclic && o.error_type() == "graph" {
+            return Ok(CaseInfo::new(false).class("cyclic-rejected").inv(env.invocations));
+        }
+        return viol_obs("c10.render.failed", "target render failed on an acyclic configuration".into(), o.brief());
+    }
+    let text = std::fs::read_to_string(env.path("graph.dot")).map_err(|e| Violation::new("c10.render.nofile", e.to_string()))?;
+    let mut nodes: std::collections::BTreeMap<usize, String> = Default::default();
+    let mut edges: Vec<(usize, usize)> = vec![];
+    for line in text.lines() {
+        let l = line.trim();
+        if l.is_empty() || l.starts_with("//") || l == "digraph DAG {" || l == "}" || l.starts_with("node [") || l.starts_with("edge [") {
+            continue;
+        }
+        if let Some((a, rest)) = l.split_once(" [label=\"") {
+            if let (Ok(n), Some(label)) = (a.parse::<usize>(), rest.strip_suffix("\"];")) {
+                if nodes.insert(n, label.to_string()).is_some() {
+                    return viol("c10.render.node.duplicate", format!("node {} declared twice", n));
+                }
+                continue;
+            }
+        }
+        if let Some((a, b)) = l.trim_end_matches(';').split_once(" -> ") {
+            if let (Ok(x), Ok(y)) = (a.parse::<usize>(), b.parse::<usize>()) {
+                edges.push((x, y));
+                continue;
+            }
+        }
+        return viol("c10.render.unknown-statement", format!("unexpected statement in the rendered graph: {:?}", l));
+    }
+    let labels: BTreeSet<String> = nodes.values().cloned().collect();
+    let want: BTreeSet<String> = cfg.target_paths().into_iter().collect();
+    if labels != want || nodes.len() != cfg.targets.len() {
+        return viol_obs(
+            "c10.render.nodes",
+            "the rendered graph does not have exactly one node per configured target".into(),
+            json!({"nodes": nodes, "targets": want}),
+        );
+    }
+    let mut got = BTreeSet::new();
+    for (a, b) in edges {
+        let (Some(f), Some(t)) = (nodes.get(&a), nodes.get(&b)) else {
+            return viol("c10.render.edge.unknown-node", format!("edge {} -> {} names an undeclared node", a, b));
+        };
+        if !got.insert((f.clone(), t.clone())) {
+            return viol("c10.edge.duplicate", format!("edge {:?} -> {:?} rendered twice", f, t));
+        }
+    }
+    judge_edges(cfg, &got, "target render")?;
+    let (nt, classes) = classify(cfg);
+    let mut info = CaseInfo::new(nt).inv(env.invocations);
+    for c in classes {
+        info = info.class(c);
+    }
+    Ok(info)
+}
+
 pub fn run(ctx: &mut Ctx) {
     ctx.rule = "in-process: target path sets (nested, disjoint, byte-prefix siblings, 1-3 components) x uses entries (targets, files and \
 directories inside targets, directories above targets, outside paths, prefix siblings) x declaration order; oracle: set equality of the \
@@ -154,11 +220,14 @@ pair, or a uses entry above/inside a target; distinct by SHA-256 of the case"
     let n = ctx.n(30_000, 1_000_000);
     ctx.drive("inproc", || strategy(10), n, check);
     ctx.drive("inproc-wide", || strategy(30), n / 10, check);
+    ctx.drive_all("golden-cli", golden(), "golden regression cases (CLI)", check_cli);
+    let n2 = ctx.n(150, 3000);
+    ctx.drive("cli-render", || strategy(8), n2, check_cli);
 }
 
 pub fn replay(ctx: &Ctx, label: &str, case: Value) -> Result<(), String> {
     let c: Case = serde_json::from_value(case).map_err(|e| e.to_string())?;
-    let r = check(&c, 0);
+    let r = if label.contains("cli") { check_cli(&c, 0) } else { check(&c, 0) };
     ctx.replay_one(label, &c, r);
     Ok(())
 }
